@@ -14,69 +14,59 @@ some p`, equivalently `Reachable pstep pinit (s, p)` (`runs_pstep`).
 namespace MythVerif.Uncond
 open MythVerif
 
-/-- **exactly one resume (label sequences)**: along every executable, well-used label sequence the
-    threads resumed are, in order, a prefix of the threads pushed, which are, in order, a prefix of
-    the threads that announced (so nobody is resumed twice for one announcement, nobody else is
-    resumed, and hand-overs happen in order); at most one announcement is unanswered; there are never
-    more pushes than claims, nor more claims than announcements -/
+/-- **exactly one resume (label sequences)**: along every executable, well-used label sequence
+    (hence along every prefix of it)
+    * the threads pushed to the run queue are, in order, a prefix of the threads that announced — every
+      signal hands over exactly the waiter of its rendezvous, rendezvous by rendezvous; at most one
+      announcement is unanswered; never more pushes than claims, nor more claims than announcements;
+    * for every thread `t`: #resumes of `t` ≤ #pushes of `t` ≤ #announcements of `t` ≤ #resumes of `t` + 1 —
+      `t` is resumed at most once per push and pushed at most once per announcement (and it can
+      announce again only after it was resumed) -/
 theorem C08_exactly_one_resume (ls : List Lbl) (s : St) (p : Phase)
     (h : runs step init ls = some s) (hw : runs proto .free ls = some p) :
-    resumed ls <+: pushed ls ∧ pushed ls <+: anns ls ∧
-    (anns ls).length ≤ (resumed ls).length + 1 ∧
-    (pushed ls).length ≤ (claims ls).length ∧ (claims ls).length ≤ (anns ls).length := by
+    pushed ls <+: anns ls ∧ (anns ls).length ≤ (pushed ls).length + 1 ∧
+    (pushed ls).length ≤ (claims ls).length ∧ (claims ls).length ≤ (anns ls).length ∧
+    (∀ t, ls.countP (isResumeOf t) ≤ ls.countP (isPushOf t) ∧ ls.countP (isPushOf t) ≤ ls.countP (isAnnOf t) ∧
+          ls.countP (isAnnOf t) ≤ ls.countP (isResumeOf t) + 1) := by
   have ht := trinv ls s p h hw
+  have hsig := siginv ls s h
+  have hper : ∀ t, ls.countP (isResumeOf t) ≤ ls.countP (isPushOf t) ∧ ls.countP (isPushOf t) ≤ ls.countP (isAnnOf t) ∧
+          ls.countP (isAnnOf t) ≤ ls.countP (isResumeOf t) + 1 := by
+    intro t
+    have a := hsig.res t
+    have b := hsig.ann t
+    cases hpc : s.pc t <;> simp [hpc, blocking] at a b <;> omega
   cases p with
   | free =>
-    obtain ⟨a, b, c⟩ := ht.fr rfl
-    rw [a, b, c]; simp
+    obtain ⟨a, c⟩ := ht.fr rfl
+    rw [a, c]; simp [hper]
   | announced w =>
-    obtain ⟨a, b, c⟩ := ht.an w rfl
-    rw [a, b, c]; simp
+    obtain ⟨a, c⟩ := ht.an w rfl
+    rw [a, c]; simp [hper]
   | claimed w q =>
-    obtain ⟨a, c, d, e⟩ := ht.cl w q rfl
-    by_cases hq : s.pc q = .sd ∨ s.pc q = .idle
-    · rw [a, d hq, c]; simp
-    · rw [a, e hq, c]; simp
+    obtain ⟨c, d, e⟩ := ht.cl w q rfl
+    by_cases hq : s.pc q = .sd
+    · rw [c, d hq]; simp [hper]
+    · rw [c, e hq]; simp [hper]
 
-/-- **exactly one resume (states)**: a resume of `t` happens only for the announced waiter of the
-    current rendezvous after its signaler has pushed it; it ends the rendezvous, takes `t` out of
-    the run queue and leaves `u->th` empty — so it cannot happen a second time without a new
-    announcement, claim and push -/
-theorem C08_resume_consumes_the_signal (s s' : St) (p p' : Phase) (t : Tid)
-    (h : Reachable pstep pinit (s, p)) (hs : pstep (s, p) (.resume t) = some (s', p')) :
-    (∃ q, p = .claimed t q ∧ q ≠ t ∧ (s.pc q = .sd ∨ s.pc q = .idle)) ∧
-    p' = .free ∧ s'.runq = [] ∧ s'.th = none ∧ s'.pc t = .idle ∧ s'.ctxSaved t = false ∧
-    step s' (.resume t) = none := by
+/-- **exactly one resume (states)**: a resume of `t` is possible only while `t` sits in the run
+    queue, pushed there by a signaler, with its context saved; it takes `t` out of the run queue and
+    back to running, so it cannot be repeated without a new announcement, claim and push -/
+theorem C08_resume_consumes_the_signal (s s' : St) (p : Phase) (t : Tid)
+    (h : Reachable pstep pinit (s, p)) (hs : step s (.resume t) = some s') :
+    s.pc t = .runnable ∧ t ∈ s.runq ∧ s.ctxSaved t = true ∧ s.th ≠ some t ∧
+    t ∉ s'.runq ∧ s'.pc t = .idle ∧ s'.ctxSaved t = false ∧ s'.th = s.th ∧ step s' (.resume t) = none := by
   have hi := reachable_inv s p h
-  obtain ⟨hs, hp⟩ := (pstep_iff s s' p p' _).mp hs
-  have hi' := inv_step s s' p p' _ hi hs hp
   simp only [step] at hs
   split at hs
   · rename_i hc
     simp at hs; subst hs
-    cases p with
-    | free => have := hi.frR rfl; simp_all
-    | announced w => have := hi.anR w rfl; simp_all
-    | claimed w q =>
-      have hq : s.pc q = .sd ∨ s.pc q = .idle := by
-        rcases hi.clS w q rfl with h1 | h1 | h1 | h1 | h1
-        · have := (hi.clG w q rfl h1).2.1; simp_all
-        · have := (hi.clC w q rfl h1).2; simp_all
-        · have := (hi.clP w q rfl h1).2.2; simp_all
-        · exact Or.inl h1
-        · exact Or.inr h1
-      have hrq := (hi.clD w q rfl hq).2.1
-      have htw : t = w := by have := hc.2; rw [hrq] at this; simpa using this
-      subst htw
-      simp only [proto] at hp
-      simp at hp; subst hp
-      have hd := hi.clD t q rfl hq
-      refine ⟨⟨q, rfl, hi.clN t q rfl, hq⟩, rfl, ?_, ?_, ?_, ?_, ?_⟩
-      · simp [hrq]
-      · exact hd.2.2
-      · simp
-      · simp
-      · simp [step]
+    refine ⟨hc.1, hc.2, (hi.sv t).mpr (Or.inr (Or.inr hc.1)), ?_, ?_, ?_, ?_, rfl, ?_⟩
+    · intro e; have := hi.thA t e; simp_all
+    · simp only; intro hm; exact ((List.Nodup.mem_erase_iff hi.rqN).mp hm).1 rfl
+    · simp
+    · simp
+    · simp [step]
   · simp at hs
 
 /-- **signal returns after the hand-off (label sequences; holds with or without the protocol)**:
@@ -99,51 +89,101 @@ theorem C08_signal_returns_after_handoff (ls : List Lbl) (s : St) (h : runs step
     its context saved and `u->th` cleared — or has already been resumed from there -/
 theorem C08_signal_return_state (s s' : St) (p : Phase) (q : Tid) (h : Reachable pstep pinit (s, p))
     (hs : step s (.sigRet q) = some s') :
-    s.pc q = .sd ∧ (∀ w, p = .claimed w q → s.pc w = .runnable ∧ s.runq = [w] ∧ s.ctxSaved w = true ∧ s.th = none) := by
+    s.pc q = .sd ∧ (∀ w, p = .claimed w q → s.pc w = .runnable ∧ w ∈ s.runq ∧ s.ctxSaved w = true ∧ s.th = none) := by
   have hi := reachable_inv s p h
   simp only [step] at hs
   split at hs
   · rename_i hc
     refine ⟨hc, ?_⟩
     intro w hp
-    have := hi.clD w q hp (Or.inl hc)
-    exact ⟨this.1, this.2.1, (hi.sv w).mpr (Or.inr (Or.inr this.1)), this.2.2⟩
+    have := hi.clD w q hp hc
+    exact ⟨this.1, (hi.rqR w).mpr this.1, (hi.sv w).mpr (Or.inr (Or.inr this.1)), this.2⟩
   · simp at hs
 
-/-- **no resume without a signal**: in every executable, well-used state a resume is impossible
-    unless a signaler has claimed this very waiter and has pushed it: while nobody announced, or
-    the announcement is unclaimed, or the signaler has not pushed yet, no thread can resume from
-    `myth_uncond_wait` -/
-theorem C08_no_resume_without_signal (s : St) (p : Phase) (t : Tid) (h : Reachable pstep pinit (s, p))
-    (hn : ¬ ∃ q, p = .claimed t q ∧ (s.pc q = .sd ∨ s.pc q = .idle)) : step s (.resume t) = none := by
+/-- **no resume without a signal (states)**: a thread becomes runnable again only by a signaler's
+    push, a push of `x` is possible only for the signaler `q` that claimed the announcement of this very
+    `x` and after it cleared `u->th`; while the announcement of `w` is unclaimed, or its signaler has
+    not pushed yet, `w` cannot resume -/
+theorem C08_no_resume_without_signal (s : St) (p : Phase) (h : Reachable pstep pinit (s, p)) :
+    (∀ l s' t, step s l = some s' → s'.pc t = .runnable → s.pc t = .runnable ∨ ∃ q, l = .sigPush q t) ∧
+    (∀ q x s', step s (.sigPush q x) = some s' → p = .claimed x q ∧ s.th = none ∧ s.pc x = .asleep) ∧
+    (∀ w, p = .announced w → step s (.resume w) = none) ∧
+    (∀ w q, p = .claimed w q → s.pc q ≠ .sd → step s (.resume w) = none) := by
   have hi := reachable_inv s p h
-  cases hr : step s (.resume t) with
-  | none => rfl
-  | some s' =>
-    exfalso
-    simp only [step] at hr
-    split at hr
+  refine ⟨?_, ?_, ?_, ?_⟩
+  · intro l s' t hs ht
+    cases l <;> simp only [step] at hs <;> (first | (split at hs) | skip) <;> (try simp at hs) <;> (try subst hs) <;>
+      simp only [upd_apply] at ht <;> (try (split at ht <;> simp_all; done))
+    rename_i q x hc
+    by_cases e1 : t = q
+    · simp [e1] at ht
+    · by_cases e2 : t = x
+      · right; exact ⟨q, by rw [e2]⟩
+      · left; simpa [e1, e2] using ht
+  · intro q x s' hs
+    simp only [step] at hs
+    split at hs
     · rename_i hc
       cases p with
-      | free => have := hi.frR rfl; simp_all
-      | announced w => have := hi.anR w rfl; simp_all
-      | claimed w q =>
-        rcases hi.clS w q rfl with h1 | h1 | h1 | h1 | h1
-        · have := (hi.clG w q rfl h1).2.1; simp_all
-        · have := (hi.clC w q rfl h1).2; simp_all
-        · have := (hi.clP w q rfl h1).2.2; simp_all
-        · have hrq := (hi.clD w q rfl (Or.inl h1)).2.1
-          have : t = w := by have := hc.2; rw [hrq] at this; simpa using this
-          subst this; exact hn ⟨q, rfl, Or.inl h1⟩
-        · have hrq := (hi.clD w q rfl (Or.inr h1)).2.1
-          have : t = w := by have := hc.2; rw [hrq] at this; simpa using this
-          subst this; exact hn ⟨q, rfl, Or.inr h1⟩
-    · simp at hr
+      | free => rcases hi.frQ q rfl with e | e | e <;> simp_all
+      | announced w =>
+        by_cases hqw : q = w
+        · subst hqw; rcases hi.anW q rfl with e | e | e | e <;> simp_all
+        · rcases hi.anQ w q rfl hqw with e | e | e <;> simp_all
+      | claimed w q' =>
+        by_cases hqw : q = w
+        · subst hqw
+          rcases hi.clS q q' rfl with g | g | g | g
+          · have := (hi.clG q q' rfl g).1; simp_all
+          · have := hi.thA q (hi.clC q q' rfl g); simp_all
+          · have := (hi.clP q q' rfl g).1; simp_all
+          · have := (hi.clD q q' rfl g).1; simp_all
+        · by_cases hqq : q = q'
+          · subst hqq
+            rcases hi.clS w q rfl with g | g | g | g
+            · simp_all
+            · simp_all
+            · have hx : x = w := by have := hc.1; rw [g] at this; cases this; rfl
+              subst hx
+              exact ⟨rfl, (hi.clP x q rfl g).2, hc.2.1⟩
+            · simp_all
+          · rcases hi.clQ w q' q rfl hqw hqq with e | e | e <;> simp_all
+    · simp at hs
+  · intro w hp
+    rcases hi.anW w hp with e | e | e | e <;> simp [step, e]
+  · intro w q hp hq
+    rcases hi.clS w q hp with g | g | g | g
+    · rcases (hi.clG w q hp g).1 with e | e | e | e <;> simp [step, e]
+    · have := hi.thA w (hi.clC w q hp g); simp [step, this]
+    · have := (hi.clP w q hp g).1; simp [step, this]
+    · exact absurd g hq
+
+/-- **no resume without a signal (label sequences)**: whenever `resume t` is executed at the end
+    of an executable label sequence, a push of `t` that no earlier resume of `t` has consumed
+    precedes it (and every push is preceded by its own claim: `C08_exactly_one_resume`) -/
+theorem C08_resume_needs_push (ls : List Lbl) (t : Tid) (s' : St)
+    (h : runs step init (ls ++ [.resume t]) = some s') :
+    ls.countP (isPushOf t) = ls.countP (isResumeOf t) + 1 := by
+  rw [runs_append] at h
+  cases hm : runs step init ls with
+  | none => simp [hm] at h
+  | some s =>
+    simp only [hm, Option.bind, runs] at h
+    split at h
+    · rename_i s1 hs
+      have hsig := siginv ls s hm
+      have a := hsig.res t
+      simp only [step] at hs
+      split at hs
+      · rename_i hc; simp [hc.1] at a; omega
+      · simp at hs
+    · simp at h
 
 /-- **publish after save**: `u->th = me` is stored only by the callback, i.e. after the waiter's
     context was saved; consequently whatever a signaler can read from `u->th`, carries between its
     read and its push, or has put into the run queue is a thread whose context is saved and which is
-    asleep / runnable (never one still running on a worker) -/
+    asleep / runnable (never one still running on a worker); a thread that has announced but whose
+    context is not saved yet is invisible to every signaler -/
 theorem C08_publish_after_save (s : St) (p : Phase) (h : Reachable pstep pinit (s, p)) :
     (∀ t s', step s (.cbPublish t) = some s' → s.ctxSaved t = true) ∧
     (∀ x, s.th = some x → s.ctxSaved x = true ∧ s.pc x = .asleep) ∧
@@ -163,28 +203,32 @@ theorem C08_publish_after_save (s : St) (p : Phase) (h : Reachable pstep pinit (
   · intro t x hx
     have hx' : s.pc x = .asleep := by
       cases p with
-      | free => rcases hi.frQ t rfl with e | e <;> simp_all
+      | free => rcases hi.frQ t rfl with e | e | e <;> simp_all
       | announced w =>
         by_cases htw : t = w
         · subst htw; rcases hi.anW t rfl with e | e | e | e <;> simp_all
-        · rcases hi.anQ w t rfl htw with e | e <;> simp_all
+        · rcases hi.anQ w t rfl htw with e | e | e <;> simp_all
       | claimed w q =>
         by_cases htw : t = w
-        · subst htw; rcases hi.clW t q rfl with e | e | e | e | e <;> simp_all
+        · subst htw
+          rcases hi.clS t q rfl with g | g | g | g
+          · rcases (hi.clG t q rfl g).1 with e | e | e | e <;> simp_all
+          · have := hi.thA t (hi.clC t q rfl g); simp_all
+          · have := (hi.clP t q rfl g).1; simp_all
+          · have := (hi.clD t q rfl g).1; simp_all
         · by_cases htq : t = q
           · subst htq
-            rcases hi.clS w t rfl with e | e | e | e | e
+            rcases hi.clS w t rfl with e | e | e | e
             · simp_all
-            · have := hi.thA w (hi.clC w t rfl e).1
+            · have := hi.thA w (hi.clC w t rfl e)
               rcases hx with hx | hx <;> simp_all
             · have := (hi.clP w t rfl e).1
               rcases hx with hx | hx <;> simp_all
             · simp_all
-            · simp_all
-          · rcases hi.clQ w q t rfl htw htq with e | e <;> simp_all
+          · rcases hi.clQ w q t rfl htw htq with e | e | e <;> simp_all
     exact ⟨(hi.sv x).mpr (Or.inr (Or.inl hx')), hx'⟩
   · intro x hx
-    have := hi.rqR x hx
+    have := (hi.rqR x).mp hx
     exact ⟨(hi.sv x).mpr (Or.inr (Or.inr this)), this⟩
   · intro t ht
     refine ⟨?_, ?_, ?_⟩
@@ -192,29 +236,35 @@ theorem C08_publish_after_save (s : St) (p : Phase) (h : Reachable pstep pinit (
       | false => rfl
       | true => have := (hi.sv t).mp hc; rcases ht with e | e <;> simp_all
     · intro e; have := hi.thA t e; rcases ht with e | e <;> simp_all
-    · intro e; have := hi.rqR t e; rcases ht with e | e <;> simp_all
+    · intro e; have := (hi.rqR t).mp e; rcases ht with e | e <;> simp_all
 
-/-- **repeated rendezvous**: whenever a rendezvous is complete (the waiter has resumed: the monitor
-    is back in `free`) the variable is exactly as initialised — `u->th` empty, nothing of this
-    variable in a run queue, nobody announced, switching, asleep or runnable on it, no signal in
-    flight before its push (at most signalers about to return) — so the next rendezvous, with any
-    waiter and any signaler, starts from the same invariant; and a resume always completes the
-    rendezvous -/
+/-- **repeated rendezvous**: whenever a rendezvous is over as far as its users can tell (the waiter
+    returned from wait or the signaler returned from signal: the monitor is back in `free`) the
+    variable is as initialised — `u->th` empty, nobody announced, switching or asleep on it, no signal
+    in flight before its push; what may remain are signalers about to return and earlier waiters
+    already handed to the run queue (context saved, resumable at any time, never pushed again) — so
+    the next rendezvous, with any waiter and any signaler, starts from the same invariant.  Both
+    user-visible returns end the rendezvous. -/
 theorem C08_repeated_rendezvous (s : St) (p : Phase) (h : Reachable pstep pinit (s, p)) :
-    (p = .free → s.th = none ∧ s.runq = [] ∧
-      ∀ t, quiet (s.pc t) = true ∧ inWait (s.pc t) = false ∧ inSignal (s.pc t) = false ∧ s.ctxSaved t = false) ∧
-    (∀ w q s' p', p = .claimed w q → pstep (s, p) (.resume w) = some (s', p') → p' = .free) := by
+    (p = .free → s.th = none ∧ s.runq.Nodup ∧
+      ∀ t, quiet (s.pc t) = true ∧ blocking (s.pc t) = false ∧ inSignal (s.pc t) = false ∧
+           (t ∈ s.runq ↔ s.pc t = .runnable) ∧ (s.ctxSaved t = true ↔ s.pc t = .runnable)) ∧
+    (∀ w q s' p', p = .claimed w q → pstep (s, p) (.resume w) = some (s', p') → p' = .free) ∧
+    (∀ w q s' p', p = .claimed w q → pstep (s, p) (.sigRet q) = some (s', p') → p' = .free) := by
   have hi := reachable_inv s p h
-  constructor
+  refine ⟨?_, ?_, ?_⟩
   · intro hp
-    refine ⟨hi.frT hp, hi.frR hp, ?_⟩
+    refine ⟨hi.frT hp, hi.rqN, ?_⟩
     intro t
     have hq := hi.frQ t hp
-    have hc : s.ctxSaved t = false := by
-      cases hc : s.ctxSaved t with
-      | false => rfl
-      | true => have := (hi.sv t).mp hc; rcases hq with e | e <;> simp_all
-    rcases hq with e | e <;> simp [e, quiet, inWait, inSignal, hc]
+    have hsv := hi.sv t
+    have hrq := hi.rqR t
+    rcases hq with e | e | e <;> simp_all [quiet, blocking, inSignal]
+  · intro w q s' p' hp hs
+    subst hp
+    have := ((pstep_iff s s' _ p' _).mp hs).2
+    simp [proto] at this
+    exact this.symm
   · intro w q s' p' hp hs
     subst hp
     have := ((pstep_iff s s' _ p' _).mp hs).2
@@ -222,9 +272,10 @@ theorem C08_repeated_rendezvous (s : St) (p : Phase) (h : Reachable pstep pinit 
     exact this.symm
 
 /-- **stuck-freedom / the signal always hands over, early or late**: in every executable, well-used
-    state in which a signal has been issued for waiter `w` by `q` and `w` has not yet resumed, a
-    non-spinning step of `w` or `q` is enabled (in particular the model's `sigPush` precondition is
-    never what blocks), and it either completes the rendezvous or strictly decreases `rank ≤ 7`:
+    state in which a signal has been issued for waiter `w` by `q` and neither has `w` returned from
+    wait nor `q` from signal, a non-spinning step of `w` or `q` is enabled (in particular the model's
+    `sigPush` precondition is never what blocks), and it either ends the rendezvous or strictly
+    decreases `rank ≤ 7`:
     *early* signal (`w` still at `ann`/`sw`/`cb`, `q` spinning) — the waiter's own step is enabled;
     *late* signal (`w` asleep) — the signaler's read / clear / push is enabled; after the push —
     `resume w` is enabled. -/
@@ -240,58 +291,71 @@ theorem C08_progress (s : St) (w q : Tid) (h : Reachable pstep pinit (s, .claime
     have a : wrank (s.pc w) ≤ 3 := by cases s.pc w <;> simp [wrank]
     have b : qrank (s.pc q) ≤ 3 := by cases s.pc q <;> simp [qrank]
     omega
-  rcases hi.clW w q rfl with e | e | e | e | e
-  · refine ⟨.blockBegin w, { s with pc := upd s.pc w .sw }, _, rfl, Or.inl rfl, ?_, Or.inr ⟨rfl, ?_⟩, hbound⟩
-    · simp [pstep, step, proto, e]
-    · simp [rank, e, wrank, hne]
-  · refine ⟨.cbBegin w, { s with pc := upd s.pc w .cb, ctxSaved := upd s.ctxSaved w true }, _, rfl, Or.inl rfl, ?_, Or.inr ⟨rfl, ?_⟩, hbound⟩
-    · simp [pstep, step, proto, e]
-    · simp [rank, e, wrank, hne]
-  · refine ⟨.cbPublish w, { s with th := some w, pc := upd s.pc w .asleep }, _, rfl, Or.inl rfl, ?_, Or.inr ⟨rfl, ?_⟩, hbound⟩
-    · simp [pstep, step, proto, e]
-    · simp [rank, e, wrank, hne]
-  · -- the waiter is asleep: the signaler moves
-    rcases hi.clS w q rfl with g | g | g | g | g
-    · have hth := (hi.clG w q rfl g).2.2 e
+  have hwait : (s.pc w = .ann ∨ s.pc w = .sw ∨ s.pc w = .cb) →
+      ∃ l s' p', l.isSpin = false ∧ (l.actor = w ∨ l.actor = q) ∧
+      pstep (s, .claimed w q) l = some (s', p') ∧
+      (p' = .free ∨ (p' = .claimed w q ∧ rank s' w q < rank s w q)) ∧ rank s w q ≤ 7 := by
+    rintro (e | e | e)
+    · refine ⟨.blockBegin w, { s with pc := upd s.pc w .sw }, _, rfl, Or.inl rfl, ?_, Or.inr ⟨rfl, ?_⟩, hbound⟩
+      · simp [pstep, step, proto, e]
+      · simp [rank, e, wrank, hne]
+    · refine ⟨.cbBegin w, { s with pc := upd s.pc w .cb, ctxSaved := upd s.ctxSaved w true }, _, rfl, Or.inl rfl, ?_, Or.inr ⟨rfl, ?_⟩, hbound⟩
+      · simp [pstep, step, proto, e]
+      · simp [rank, e, wrank, hne]
+    · refine ⟨.cbPublish w, { s with th := some w, pc := upd s.pc w .asleep }, _, rfl, Or.inl rfl, ?_, Or.inr ⟨rfl, ?_⟩, hbound⟩
+      · simp [pstep, step, proto, e]
+      · simp [rank, e, wrank, hne]
+  rcases hi.clS w q rfl with g | g | g | g
+  · obtain ⟨hw4, hth⟩ := hi.clG w q rfl g
+    rcases hw4 with e | e | e | e
+    · exact hwait (Or.inl e)
+    · exact hwait (Or.inr (Or.inl e))
+    · exact hwait (Or.inr (Or.inr e))
+    · have hth := hth e
       refine ⟨.sigRead q w, { s with pc := upd s.pc q (.sc w) }, _, rfl, Or.inr rfl, ?_, Or.inr ⟨rfl, ?_⟩, hbound⟩
       · simp [pstep, step, proto, g, hth]
       · simp [rank, g, qrank, hwq]
-    · refine ⟨.sigClear q, { s with th := none, pc := upd s.pc q (.sp w) }, _, rfl, Or.inr rfl, ?_, Or.inr ⟨rfl, ?_⟩, hbound⟩
-      · simp [pstep, step, proto, g]
-      · simp [rank, g, qrank, hwq]
-    · have hsv := (hi.sv w).mpr (Or.inr (Or.inl e))
-      refine ⟨.sigPush q w, { s with runq := s.runq ++ [w], pc := upd (upd s.pc w .runnable) q .sd }, _, rfl, Or.inr rfl, ?_, Or.inr ⟨rfl, ?_⟩, hbound⟩
-      · simp [pstep, step, proto, g, e, hsv]
-      · simp [rank, g, e, qrank, wrank, hwq]
-    · have := (hi.clD w q rfl (Or.inl g)).1; simp_all
-    · have := (hi.clD w q rfl (Or.inr g)).1; simp_all
+  · refine ⟨.sigClear q, { s with th := none, pc := upd s.pc q (.sp w) }, _, rfl, Or.inr rfl, ?_, Or.inr ⟨rfl, ?_⟩, hbound⟩
+    · simp [pstep, step, proto, g]
+    · simp [rank, g, qrank, hwq]
+  · have e := (hi.clP w q rfl g).1
+    have hsv := (hi.sv w).mpr (Or.inr (Or.inl e))
+    refine ⟨.sigPush q w, { s with runq := s.runq ++ [w], pc := upd (upd s.pc w .runnable) q .sd }, _, rfl, Or.inr rfl, ?_, Or.inr ⟨rfl, ?_⟩, hbound⟩
+    · simp [pstep, step, proto, g, e, hsv]
+    · simp [rank, g, e, qrank, wrank, hwq]
   · -- pushed: the waiter resumes
-    have hq : s.pc q = .sd ∨ s.pc q = .idle := by
-      rcases hi.clS w q rfl with g | g | g | g | g
-      · have := (hi.clG w q rfl g).1; simp_all
-      · have := hi.thA w (hi.clC w q rfl g).1; simp_all
-      · have := (hi.clP w q rfl g).1; simp_all
-      · exact Or.inl g
-      · exact Or.inr g
-    have hrq := (hi.clD w q rfl hq).2.1
+    have e := (hi.clD w q rfl g).1
+    have hrq := (hi.rqR w).mpr e
     refine ⟨.resume w, { s with runq := s.runq.erase w, pc := upd s.pc w .idle, ctxSaved := upd s.ctxSaved w false },
       .free, rfl, Or.inl rfl, ?_, Or.inl rfl, hbound⟩
     simp [pstep, step, proto, e, hrq]
 
+/-- a pushed waiter can always be resumed, whatever else is going on on the variable (also after
+    its signaler has returned and further rendezvous have started) -/
+theorem C08_pushed_can_resume (s : St) (p : Phase) (t : Tid) (h : Reachable pstep pinit (s, p))
+    (ht : s.pc t = .runnable) : ∃ s' p', pstep (s, p) (.resume t) = some (s', p') := by
+  have hi := reachable_inv s p h
+  have hrq := (hi.rqR t).mpr ht
+  cases hp : proto p (.resume t) with
+  | none => cases p <;> simp [proto] at hp <;> (split at hp <;> simp at hp)
+  | some p' =>
+    exact ⟨{ s with runq := s.runq.erase t, pc := upd s.pc t .idle, ctxSaved := upd s.ctxSaved t false }, p',
+      by simp [pstep, step, ht, hrq, hp]⟩
+
 /-- the rank never increases while the rendezvous is in flight: whatever any thread does (spinning
-    included), the phase stays `claimed w q` with `rank` not larger, or the rendezvous completes -/
+    included), the phase stays `claimed w q` with `rank` not larger, or the rendezvous ends -/
 theorem C08_rank_never_increases (s s' : St) (p' : Phase) (w q : Tid) (l : Lbl)
     (h : Reachable pstep pinit (s, .claimed w q)) (hs : pstep (s, .claimed w q) l = some (s', p')) :
     p' = .free ∨ (p' = .claimed w q ∧ rank s' w q ≤ rank s w q) := by
   have hi := reachable_inv s _ h
-  obtain ⟨hsv, hthA, hrqR, hrqN, hfrT, hfrR, hfrQ, hanW, hanR, hanT, hanQ, hclN, hclW, hclQ, hclS, hclG, hclC, hclP, hclD⟩ := hi
+  obtain ⟨hsv, hthA, hrqR, hrqN, hfrT, hfrQ, hanW, hanT, hanQ, hclN, hclQ, hclS, hclG, hclC, hclP, hclD⟩ := hi
   obtain ⟨hs, hp⟩ := (pstep_iff s s' _ p' l).mp hs
   have hne := hclN w q rfl
-  have hcw := hclW w q rfl
   have hcs := hclS w q rfl
+  have hcg := hclG w q rfl
   have hcq := fun t => hclQ w q t rfl
   have hcp := hclP w q rfl
-  clear hfrT hfrR hfrQ hanW hanR hanT hanQ hclN hclW hclQ hclS hclG hclC hclP hclD hsv hrqN
+  clear hfrT hfrQ hanW hanT hanQ hclN hclQ hclS hclG hclC hclP hclD hsv hrqN hrqR
   cases l <;> simp only [step] at hs <;> (first | (split at hs) | skip) <;> (try simp at hs) <;> (try subst hs) <;>
     simp only [proto] at hp <;> (first | (split at hp) | skip) <;> (try simp at hp) <;> (try subst hp) <;>
     simp only [rank, upd_apply] <;> grind [wrank, qrank]
